@@ -202,8 +202,38 @@ pub fn op_json(o: &Op) -> Value {
     json!(format!("{:?}", o))
 }
 
+thread_local! {
+    /// which public constructor `root` uses (0 = MoveChain::new); set per shard, recorded in every case
+    pub static CTOR: std::cell::Cell<u8> = const { std::cell::Cell::new(0) };
+}
+pub const CTOR_NAMES: [&str; 6] = ["new", "from_fen(as_fen)", "from_uci_list(b, \"\")", "new + clone", "new_initial (initial start only)", "Default::default (initial start only)"];
+
+/// the chain for start position `b`, built by the selected public constructor; constructors that
+/// exist only for the initial position fall back to `new` on other starts
+pub fn make_chain(b: Board, ctor: u8) -> Option<MoveChain> {
+    let initial = b == Board::initial();
+    Some(match ctor {
+        1 => MoveChain::from_fen(&b.as_fen()).ok()?,
+        2 => MoveChain::from_uci_list(b, "").ok()?,
+        3 => {
+            let c = MoveChain::new(b);
+            let d = c.clone();
+            drop(c);
+            d
+        }
+        4 if initial => MoveChain::new_initial(),
+        5 if initial => MoveChain::default(),
+        _ => MoveChain::new(b),
+    })
+}
+
 pub fn case_of(game: &Game, path: &[Op]) -> Value {
-    json!({"kind": "chain", "game": game.name, "path": path.iter().map(op_json).collect::<Vec<_>>()})
+    let ctor = CTOR.with(|c| c.get());
+    if ctor == 0 {
+        json!({"kind": "chain", "game": game.name, "path": path.iter().map(op_json).collect::<Vec<_>>()})
+    } else {
+        json!({"kind": "chain", "game": game.name, "ctor": ctor, "path": path.iter().map(op_json).collect::<Vec<_>>()})
+    }
 }
 
 fn resolve(model: &MChain, uci_text: &str) -> (Option<Mv>, Option<Mv>) {
@@ -404,7 +434,12 @@ fn apply_in_place(ctx: &mut Ctx, game: &Game, node: &mut Node, parent: &Node, op
         }
         Op::Reset(some) => {
             if *some {
-                node.real.reset_outcome(Some(foreign_outcome()));
+                // both public setters: set_outcome is defined only on an unfinished chain
+                if !node.real.is_finished() && node.path.len() % 2 == 0 {
+                    node.real.set_outcome(foreign_outcome());
+                } else {
+                    node.real.reset_outcome(Some(foreign_outcome()));
+                }
                 node.stored = Stored::Foreign;
             } else {
                 node.real.reset_outcome(None);
@@ -559,7 +594,28 @@ pub fn ops_of(game: &Game) -> Vec<Op> {
 
 pub fn root(game: &Game) -> Option<Node> {
     let b = board_of(&game.start)?;
-    Some(Node { real: MoveChain::new(b), model: MChain::new(game.start), stored: Stored::None, path: Vec::new() })
+    let real = make_chain(b, CTOR.with(|c| c.get()))?;
+    Some(Node { real, model: MChain::new(game.start), stored: Stored::None, path: Vec::new() })
+}
+
+/// every public constructor gives, for the same start position, the same complete chain state
+/// (start, position, move list, outcome, repetition table, undo stack) as `MoveChain::new`
+pub fn ctor_differential(ctx: &mut Ctx, game: &Game) {
+    let Some(b) = board_of(&game.start) else { return };
+    let base = obs(&MoveChain::new(b.clone()));
+    for ctor in 1..CTOR_NAMES.len() as u8 {
+        ctx.states += 1;
+        ctx.transitions += 1;
+        match make_chain(b.clone(), ctor) {
+            Some(c) => {
+                let o = obs(&c);
+                if o != base {
+                    ctx.violate(json!({"kind": "chain", "game": game.name, "ctor": ctor, "path": []}), format!("chain built by {} differs from MoveChain::new on the same start: {}", CTOR_NAMES[ctor as usize], obs_diff(&o, &base)));
+                }
+            }
+            None => ctx.violate(json!({"kind": "chain", "game": game.name, "ctor": ctor, "path": []}), format!("constructor {} refuses a valid start position", CTOR_NAMES[ctor as usize])),
+        }
+    }
 }
 
 /// BFS over chain states; key = (accepted moves, stored outcome)
@@ -735,7 +791,12 @@ pub fn replay_path(case: &Value, ctx: &mut Ctx, family: u8) {
         all.push(g);
     }
     let Some(game) = all.iter().find(|g| g.name == name) else { return };
+    CTOR.with(|c| c.set(case["ctor"].as_u64().unwrap_or(0) as u8));
+    if case["ctor"].as_u64().unwrap_or(0) > 0 && case["path"].as_array().map(|a| a.is_empty()).unwrap_or(true) {
+        ctor_differential(ctx, game);
+    }
     let Some(mut node) = root(game) else { return };
+    CTOR.with(|c| c.set(0));
     let ops = ops_of(game);
     let mut extra = ops.clone();
     // word alphabets may contain ops outside ops_of (they are a subset in practice)
